@@ -3,7 +3,7 @@
 s=$1; shift
 ID=${s%%-*}
 cd /repo && git apply /verif/seeded/$s/patch.diff || exit 2
-cd /verif && ./vcheck $ID "$@" > /tmp/scratch/try_$s.log 2>&1; rc=$?
+cd /verif && VERIF_SCRATCH_EVIDENCE=1 ./vcheck $ID "$@" > /tmp/scratch/try_$s.log 2>&1; rc=$?
 cd /repo && git checkout -q -- .
 echo "$s: exit=$rc  $(grep -c '^VIOLATION' /tmp/scratch/try_$s.log) violation lines; $(grep '^VIOLATION' /tmp/scratch/try_$s.log | head -2 | tr '\n' ' ')"
 grep "label=" /tmp/scratch/try_$s.log | head -3
